@@ -347,7 +347,7 @@ func c04Gen(rng *rand.Rand, tier string, w *bufio.Writer) {
 	defer os.RemoveAll(dir)
 	nBases, perBase, nRand := 160, 40, 1500
 	if tier == "thorough" {
-		nBases, perBase, nRand = 600, 120, 20000
+		nBases, perBase, nRand = 300, 120, 20000
 	}
 	emit := func(b []byte, id int, kind string) { fmt.Fprintf(w, "file %s %d %s\n", c01Hex(b), id, kind) }
 	fmt.Fprintln(w, "case 0")
